@@ -23,7 +23,7 @@ def twin_spec(r: random.Random, idx: int) -> dict:
         levels.append(lv)
     spec = {"name": f"twin{idx}", "seed": r.randrange(1, 10 ** 6), "dim": r.choice([2, 3]),
             "box": r.choice(["sym", "asym", "unit", "decimal"]),
-            "fn": r.choice(["sphere", "multi", "funnels", "linear", "offset", "plateau", "plateau", "zero", "penalty", "penalty", "partial"]),
+            "fn": r.choice(["sphere", "multi", "funnels", "linear", "offset", "plateau", "plateau", "zero", "penalty", "penalty"]),      # (not "partial": NaN values are not mirror-symmetric in pyhms - topk / replacement on NaN)
             "levels": levels, "hibernation": r.random() < 0.4,
             "gsc": r.choice([{"kind": "MetaepochLimit", "n": r.choice([3, 4, 5])},
                              {"kind": "SingularEvalLimit", "n": r.choice([60, 150])}]),
